@@ -323,7 +323,8 @@ impl TSigner {
             tsig.time,
             Range {
                 start: tsig.time.saturating_sub(tsig.fudge as u64),
-                end: tsig.time + tsig.fudge as u64,
+                // the window includes both of its ends, RFC 8945 section 5.2.3
+                end: tsig.time + tsig.fudge as u64 + 1,
             },
         ))
     }
